@@ -122,15 +122,28 @@ func newSentinel(nonce uint64) *sentinel {
 		return nil
 	}
 	s := &sentinel{dir: dir, secret: fmt.Sprintf("SECRET-%016x", nonce)}
+	s.populate()
+	return s
+}
+
+// populate fills the (empty) sentinel directory and points temporary files and relative names at it.
+func (s *sentinel) populate() {
+	dir := s.dir
+	os.MkdirAll(dir, 0o755)
 	os.WriteFile(filepath.Join(dir, "secret.txt"), []byte(s.secret+"\nline2\n"), 0o644)
 	os.Mkdir(filepath.Join(dir, "sub"), 0o755)
-	// temporary files and relative names land inside the sentinel as well
+	os.WriteFile(filepath.Join(dir, "smod.lua"), []byte(fmt.Sprintf("local f = io.open(%q, \"w\") if f then f:write(\"x\") f:close() end return %q\n", filepath.Join(dir, "executed"), s.secret)), 0o644)
 	os.Mkdir(filepath.Join(dir, "tmp"), 0o755)
 	os.Setenv("TMPDIR", filepath.Join(dir, "tmp"))
 	os.Chdir(dir)
-	os.WriteFile(filepath.Join(dir, "smod.lua"), []byte(fmt.Sprintf("local f = io.open(%q, \"w\") if f then f:write(\"x\") f:close() end return %q\n", filepath.Join(dir, "executed"), s.secret)), 0o644)
 	s.snap = s.snapshot()
-	return s
+}
+
+// reset starts again from a fresh sentinel after a legitimate effect.
+func (s *sentinel) reset() {
+	os.Chdir("/var/tmp")
+	os.RemoveAll(s.dir)
+	s.populate()
 }
 
 func (s *sentinel) snapshot() map[string]string {
@@ -215,10 +228,27 @@ func runFlags(ctx *core.RunCtx) {
 	h.Run("pp", fmt.Sprintf("package.path = %q", filepath.Join(sen.dir, "?.lua")))
 	th := h.R.MainThread()
 
-	mkArgs := func() ([]rt.Value, string) {
+	mkArgs := func(aimed bool) ([]rt.Value, string) {
 		n := g.Weighted(1, 4, 4, 2)
 		var vals []rt.Value
 		var desc []string
+		if aimed {
+			// the shape file functions expect: an existing path, then a second path or a mode
+			p := []string{"secret.txt", "smod.lua", "sub", "secret.txt"}[g.Choose(4)]
+			vals = append(vals, rt.StringValue(filepath.Join(sen.dir, p)))
+			switch g.Choose(4) {
+			case 0:
+				vals = append(vals, rt.StringValue(filepath.Join(sen.dir, []string{"newfile.txt", "sub/new", "secret.txt"}[g.Choose(3)])))
+			case 1:
+				vals = append(vals, rt.StringValue([]string{"w", "a", "r+", "r", "w+"}[g.Choose(5)]))
+			case 2:
+				vals = append(vals, rt.StringValue([]string{"*a", "a", "n", "l"}[g.Choose(4)]))
+			}
+			for _, v := range vals {
+				desc = append(desc, harness.Canon(v))
+			}
+			return vals, strings.Join(desc, ", ")
+		}
 		for i := 0; i < n; i++ {
 			var v rt.Value
 			switch g.Weighted(5, 3, 2, 2, 2, 1, 1, 1, 1) {
@@ -323,12 +353,7 @@ func runFlags(ctx *core.RunCtx) {
 			}
 		}
 		if sen.changed() != "" {
-			sen.restore()
-			os.MkdirAll(sen.dir, 0o755)
-			os.WriteFile(filepath.Join(sen.dir, "secret.txt"), []byte(sen.secret+"\nline2\n"), 0o644)
-			os.Mkdir(filepath.Join(sen.dir, "sub"), 0o755)
-			os.WriteFile(filepath.Join(sen.dir, "smod.lua"), []byte("return 1\n"), 0o644)
-			sen.snap = sen.snapshot()
+			sen.reset()
 		}
 	}
 	// D(f): probe with each single flag and no arguments
@@ -350,7 +375,7 @@ func runFlags(ctx *core.RunCtx) {
 	for bits := 1; bits < 16; bits++ {
 		flags := flagSet(bits)
 		for rep := 0; rep < 2; rep++ {
-			args, adesc := mkArgs()
+			args, adesc := mkArgs(rep == 0 && g.Chance(2, 3))
 			spelling := g.Choose(4)
 			errS, results, live, pan := call(flags, spelling, args)
 			grid++
@@ -372,12 +397,7 @@ func runFlags(ctx *core.RunCtx) {
 				}
 				// a legitimate effect (iosafe not required): start again from a fresh sentinel
 				ctx.Count("legitimate file-system effects (iosafe not required)", 1)
-				sen.restore()
-				os.MkdirAll(sen.dir, 0o755)
-				os.WriteFile(filepath.Join(sen.dir, "secret.txt"), []byte(sen.secret+"\nline2\n"), 0o644)
-				os.Mkdir(filepath.Join(sen.dir, "sub"), 0o755)
-				os.WriteFile(filepath.Join(sen.dir, "smod.lua"), []byte("return 1\n"), 0o644)
-				sen.snap = sen.snapshot()
+				sen.reset()
 			}
 			if bits&^declared != 0 {
 				// G1: must be refused before running
